@@ -61,7 +61,7 @@ fn main() {
             let maxops: u64 = arg("--maxops", "30").parse().unwrap();
             let depth: usize = arg("--depth", "3").parse().unwrap();
             let big = arg("--big", "0") == "1";
-            let o = if kind == "double" { gen::double_crash_histories(seed, n) } else if kind == "empties" { gen::empties_histories(seed, n) } else if kind == "words" { gen::word_histories(seed, n) } else if kind == "large" { gen::large_histories(seed, n, mode == gen::Mode::Crash) } else if kind == "random" { gen::random_histories(seed, n, maxops, mode, big) } else { gen::exhaustive_histories(depth, mode, n, seed) };
+            let o = if kind == "double" { gen::double_crash_histories(seed, n) } else if kind == "bits" { gen::bit_batch_histories(seed, n, mode) } else if kind == "empties" { gen::empties_histories(seed, n) } else if kind == "words" { gen::word_histories(seed, n) } else if kind == "large" { gen::large_histories(seed, n, mode == gen::Mode::Crash) } else if kind == "random" { gen::random_histories(seed, n, maxops, mode, big) } else { gen::exhaustive_histories(depth, mode, n, seed) };
             finish(&out, o);
         }
         "adv" => {
@@ -72,7 +72,7 @@ fn main() {
         "events" => { finish(&out, gen::event_histories(seed, n, arg("--maxops", "25").parse().unwrap())); }
         "readonly" => { finish(&out, gen::readonly_histories(seed, n, arg("--maxops", "8").parse().unwrap(), arg("--crash", "0") == "1")); }
         "backends" => { finish(&out, gen::backend_sequences(seed, n)); }
-        "faults" => { finish(&out, gen::fault_histories(seed, n, arg("--maxops", "8").parse().unwrap())); }
+        "faults" => { if arg("--kind", "writer") == "replica" { finish(&out, gen::fault_replica_histories(seed, n)); } else { finish(&out, gen::fault_histories(seed, n, arg("--maxops", "8").parse().unwrap())); } }
         "tree" => { finish(&out, gen::tree_histories(seed, n, arg("--maxlen", "70").parse().unwrap())); }
         "layout" => { finish(&out, gen::layout_histories(seed, n, arg("--maxops", "14").parse().unwrap())); }
         "script" => { finish(&out, gen::script(&arg("--file", "/dev/stdin"))); }
